@@ -743,6 +743,108 @@ fn random_plan(rng: &mut Rng, writers: &mut usize) -> Plan {
     }
 }
 
+/// `cf` / `cs` lines: `ConfigDropshot` read from JSON text and written out as JSON (the task
+/// mode in force is the one the deployment's configuration says).
+///   cf <id> <json text, hex> => ok <bind hex> <max> <mode> <log header hex,…|-> | err
+///   cs <id> <bind hex> <max> <mode> <log header hex,…|-> => <json text, hex>
+fn config_lines(lines: &mut Vec<String>) {
+    use dropshot::ConfigDropshot;
+    let mut rng = Rng::from_env(1616);
+    const ADDRS: &[&str] = &["127.0.0.1:0", "0.0.0.0:8080", "[::1]:443", "192.168.1.20:65535", "[::]:12220"];
+    const MODES: &[&str] = &[
+        "\"cancel-on-disconnect\"", "\"detached\"", "\"cancel-on-disconnect\"", "\"detached\"",
+        "{\"detached\":null}", "{\"cancel-on-disconnect\":null}", "\"Detached\"", "\"cancel_on_disconnect\"",
+        "\"CancelOnDisconnect\"", "\"cancel\"", "\"\"", "null", "0", "true", "[\"detached\"]", "{\"detached\":1}",
+        "{\"detached\":null,\"cancel-on-disconnect\":null}", "{}",
+    ];
+    const MAXES: &[&str] = &[
+        "0", "1", "1024", "4294967296", "18446744073709551615", "18446744073709551616", "-1", "\"1024\"", "null", "true",
+        "[1024]", "99999999999999999999999999",
+    ];
+    const HDRS: &[&str] = &["[]", "[\"x-request-id\"]", "[\"a\",\"B\",\"a\"]", "[\"\"]", "[1]", "[null]", "\"a\"", "null", "{}", "[[\"a\"]]"];
+    const OTHER: &[(&str, &str)] = &[
+        ("request_body_max_bytes", "1024"),
+        ("request_body_max_bytes", "null"),
+        ("request_body_max_bytes", "\"x\""),
+        ("unknown", "1"),
+        ("tls", "{\"cert_file\":\"c\"}"),
+        ("Default_handler_task_mode", "\"cancel-on-disconnect\""),
+        ("default-handler-task-mode", "\"cancel-on-disconnect\""),
+        ("default_handler_task_mode ", "\"cancel-on-disconnect\""),
+        ("bind-address", "\"127.0.0.1:0\""),
+    ];
+    let mode_name = |m: HandlerTaskMode| if m == HandlerTaskMode::Detached { "detached" } else { "cancel" };
+    let hdrs_enc = |h: &[String]| if h.is_empty() { "-".to_string() } else { h.iter().map(|x| format!("s{}", hex(x.as_bytes()))).collect::<Vec<_>>().join(",") };
+    let mut id = 0u64;
+    let n = if is_thorough() { 40000 } else { 4000 };
+    for i in 0..n {
+        let mut pairs: Vec<(String, String)> = Vec::new();
+        // each known key: absent, present once (mostly with a good value), or twice
+        let mut put = |pairs: &mut Vec<(String, String)>, rng: &mut Rng, key: &str, pool: &[&str], good: usize| {
+            let times = match rng.below(10) {
+                0 | 1 | 2 => 0,
+                9 => 2,
+                _ => 1,
+            };
+            for _ in 0..times {
+                let v = if rng.chance(2, 3) { pool[rng.below(good as u64) as usize] } else { *rng.pick(pool) };
+                pairs.push((key.to_string(), v.to_string()));
+            }
+        };
+        let quoted: Vec<String> = ADDRS.iter().map(|a| format!("\"{}\"", a)).collect();
+        let mut addr_pool: Vec<&str> = quoted.iter().map(|s| s.as_str()).collect();
+        addr_pool.extend_from_slice(&["8080", "null", "[\"127.0.0.1:0\"]"]);
+        put(&mut pairs, &mut rng, "bind_address", &addr_pool, ADDRS.len());
+        put(&mut pairs, &mut rng, "default_request_body_max_bytes", MAXES, 5);
+        put(&mut pairs, &mut rng, "default_handler_task_mode", MODES, 6);
+        put(&mut pairs, &mut rng, "log_headers", HDRS, 4);
+        if rng.chance(1, 4) {
+            let (k, v) = *rng.pick(OTHER);
+            pairs.push((k.to_string(), v.to_string()));
+        }
+        for k in (1..pairs.len()).rev() {
+            let j = rng.below(k as u64 + 1) as usize;
+            pairs.swap(k, j);
+        }
+        let text = if i % 97 == 96 {
+            rng.pick(&["null", "3", "\"detached\"", "true"]).to_string()
+        } else {
+            format!("{{{}}}", pairs.iter().map(|(k, v)| format!("\"{}\":{}", k, v)).collect::<Vec<_>>().join(","))
+        };
+        let got = match serde_json::from_str::<ConfigDropshot>(&text) {
+            Ok(c) => format!(
+                "ok {} {} {} {}",
+                hex(c.bind_address.to_string().as_bytes()),
+                c.default_request_body_max_bytes,
+                mode_name(c.default_handler_task_mode),
+                hdrs_enc(&c.log_headers)
+            ),
+            Err(_) => "err".to_string(),
+        };
+        id += 1;
+        lines.push(format!("cf {} {} => {}", id, hex(text.as_bytes()), got));
+    }
+    for _ in 0..(n / 4) {
+        let c = ConfigDropshot {
+            bind_address: rng.pick(ADDRS).parse().unwrap(),
+            default_request_body_max_bytes: *rng.pick(&[0usize, 1, 1024, 1 << 32, usize::MAX]),
+            default_handler_task_mode: if rng.chance(1, 2) { HandlerTaskMode::Detached } else { HandlerTaskMode::CancelOnDisconnect },
+            log_headers: (0..rng.below(3)).map(|_| rng.pick(&["x-request-id", "a", "", "B\"q\""]).to_string()).collect(),
+        };
+        let text = serde_json::to_string(&c).expect("configuration serialises");
+        id += 1;
+        lines.push(format!(
+            "cs {} {} {} {} {} => {}",
+            id,
+            hex(c.bind_address.to_string().as_bytes()),
+            c.default_request_body_max_bytes,
+            mode_name(c.default_handler_task_mode),
+            hdrs_enc(&c.log_headers),
+            hex(text.as_bytes())
+        ));
+    }
+}
+
 fn main() {
     quiet_handler_panics();
     let rt = Arc::new(
@@ -890,6 +992,11 @@ fn main() {
     let mut out = std::io::BufWriter::new(std::io::stdout());
     for l in results.lock().unwrap().iter() {
         writeln!(out, "{}", l.as_ref().expect("scenario ran")).unwrap();
+    }
+    let mut cfg_lines = Vec::new();
+    config_lines(&mut cfg_lines);
+    for l in cfg_lines {
+        writeln!(out, "{}", l).unwrap();
     }
     out.flush().unwrap();
 }
